@@ -72,6 +72,10 @@ func newIndexedField(value interface{}, objid uint64) (*indexedField, error) {
 	default:
 		err = fmt.Errorf("%w %T", ErrUnknownKeyType, value)
 	}
+	// NaN cannot be ordered (nor serialized to JSON) so it cannot be indexed
+	if f, ok := value.(float64); ok && f != f {
+		err = fmt.Errorf("%w NaN", ErrUnknownKeyType)
+	}
 	return &indexedField{value, objid}, err
 }
 
